@@ -4,7 +4,7 @@
 
    Oracles (CPython facts, supplied per case by the harness, never modelled):
      fmtv f tok      = f % float(tok)          (numeric formatting of a sample)
-     fmt_diff a b    = "%.5f" % (float(a) - float(b))
+     fmt_diff f a b  = f % (float(a) - float(b))
      fmt_pi f        = f % numpy.pi
      fstr tok        = str(np.float64(tok))
      fzero tok       = (float(tok) == 0)
@@ -40,7 +40,7 @@ Inductive wres := WOk (text : list N) (m : mlas) | WErr (e : werr).
 
 Section WithOracles.
 Variable fmtv : list N -> list N -> list N.
-Variable fmt_diff : list N -> list N -> list N.
+Variable fmt_diff : list N -> list N -> list N -> list N.
 Variable fmt_pi : list N -> list N.
 Variable fstr : list N -> list N.
 Variable fzero : list N -> bool.
@@ -121,7 +121,9 @@ Definition tail_text (o : item_order) (it : hitem) : list N :=
 Definition max_list (l : list nat) : nat := fold_left Nat.max l 0%nat.
 
 Definition left_col (left_width : nat) (it : hitem) : list N :=
-  let l := ljust left_width 32 (i_orig it) in
+  (* a mnemonic that ends with a period is not padded (the reader recognises the abbreviation
+     period only when it touches the delimiter) *)
+  let l := if endswith [ch_dot] (i_orig it) then i_orig it else ljust left_width 32 (i_orig it) in
   match i_unit it with
   | 46 :: _ => if endswith [32] l then l else l ++ [32]
   | _ => l
@@ -226,12 +228,12 @@ Definition cells_equal (a b : list cell) : bool :=
                     | _ => false                        (* NaN != NaN *)
                     end) (combine a b).
 
-Definition f5 : list N := s2l "%.5f".
-Definition fmt_index_cell (c : cell) : hval :=
+(* STRT/STOP/STEP are printed with the format of the index column: column_fmt[0] or fmt *)
+Definition fmt_index_cell (f : list N) (c : cell) : hval :=
   match c with
-  | CNum t => VStr (fmtv f5 t)
+  | CNum t => VStr (fmtv f t)
   | CNaN => VStr (s2l "nan")
-  | CStr s => VStr s           (* "%.5f" % text raises TypeError: outside the modelled fragment *)
+  | CStr s => VStr s           (* fmt % text raises TypeError: outside the modelled fragment *)
   end.
 
 (* the loop `for k in range(len(data_section_header)): if k < len(hv): if hv[0] == " ": hv = hv[1:]` *)
@@ -260,7 +262,7 @@ Definition map_section (f : hitem -> hitem) (s : section) : section := mksect (L
 Definition bind {A B} (o : option A) (f : A -> option B) : option B := match o with Some x => f x | None => None end.
 
 (* steps 4-5: refresh STRT/STOP/STEP values and align the units; None = KeyError/IndexError *)
-Definition refresh_sss (m : mlas) : option las :=
+Definition refresh_sss (f : list N) (m : mlas) : option las :=
   let l := m_las m in
   let index := nth 0%nat (l_data l) [] in
   let ncurves := List.length (s_items (l_curves l)) in
@@ -289,13 +291,13 @@ Definition refresh_sss (m : mlas) : option las :=
   bind need (fun need =>
   let set_values (w : list hitem) : option (list hitem) :=
     if need then
-      let strt := match index with c :: _ => fmt_index_cell c | [] => VNone end in
-      let stop := match rev index with c :: _ => fmt_index_cell c | [] => VNone end in
+      let strt := match index with c :: _ => fmt_index_cell f c | [] => VNone end in
+      let stop := match rev index with c :: _ => fmt_index_cell f c | [] => VNone end in
       let step :=
         match index with
         | CNum a :: CNum b :: _ =>
             if match strt, stop with VStr x, VStr y => str_eqb x y | _, _ => true end then VNone
-            else VStr (fmt_diff b a)
+            else VStr (fmt_diff f b a)
         | _ => VNone
         end in
       bind (update_first trw (s2l "STRT") (fun it => set_value it strt) w) (fun w1 =>
@@ -346,7 +348,7 @@ Definition write (o : wopts) (m : mlas) : wres :=
       set_item trv (s2l "VERS") (new_item (s2l "VERS") [] (VFloat (s2l "2.0")) (s2l "CWLS log ASCII Standard -VERSION 2.0")) (s_items (l_version l1))
     else s_items (l_version l1) in
   (* 4-5 *)
-  match refresh_sss (mkmlas l1 (m_index_initial m)) with
+  match refresh_sss (col_fmt o 0%nat) (mkmlas l1 (m_index_initial m)) with
   | None => WErr WKeyError
   | Some l2 =>
   (* 7, 9: normalise ~Well and ~Parameter values *)
